@@ -1298,6 +1298,13 @@ static int op_dyndns(int argc, char **argv, FILE *out) {
     return 1;
 }
 
+/* the list of client blocks find_clconf() walks, exchanged for the time of an op that brings its own blocks (tlsconn) */
+struct list *h_clconfs_swap(struct list *n) {
+    struct list *old = clconfs;
+    clconfs = n;
+    return old;
+}
+
 /* what the stream-client readers do with a packet: the REAL replyh, with the packet, its verdict and the reply queue that grew recorded */
 int h_replyh_traced(struct server *s, unsigned char *buf, int len) {
     int before[MAXCL], i, r, grown = -1;
